@@ -224,15 +224,40 @@ class G:
         self.r = r
         self.s = spec
         self.interesting = False
+        self.outer = []       # parameters of enclosing immediately called lambdas: (name, type, operator-lambda level)
+        self.oplevel = 0      # how many operator lambdas enclose the expression being generated
+        self.fresh = 0
+
+    def inner(self, nv, el, d):
+        """the body of an operator lambda over [nv : el]"""
+        self.oplevel += 1
+        try:
+            return self.value(N(nv), el, d + 1)
+        finally:
+            self.oplevel -= 1
 
     def value(self, v, t, d):
         """an expression starting from [v : t]; -> (ast, type)"""
         r = self.r
-        if r.random() < 0.08 and d < 3:
+        if r.random() < 0.12 and d < 3:
             # through an immediately called lambda: the parameter has the type of the argument, the call the type of the body
-            z = r.choice(["z", "len"])
-            b, bt = self.value(N(z), t, d + 1)
+            z = r.choice(["z", "len", None, None])
+            if z is None:
+                self.fresh += 1
+                z = "q%d" % self.fresh                      # never hidden by another parameter: usable further in
+            self.outer.append((z, t, self.oplevel))
+            try:
+                b, bt = self.value(N(z), t, d + 1)
+            finally:
+                self.outer.pop()
             return call(lam(z, b), [v]), bt
+        # the parameter of an enclosing called lambda, used one or more operator lambdas further in: it keeps the type
+        # of the argument it was bound to
+        avail = [o for o in self.outer if o[0].startswith("q") and o[2] < self.oplevel]
+        if avail and r.random() < 0.35:
+            z, t, _ = r.choice(avail)
+            v = N(z)
+            self.interesting = True
         for _ in range(r.randrange(1, 5)):
             if r.random() < 0.12 and t[0] in ("c", "it"):
                 # a conditional with the same object / collection type on both branches keeps that type as a receiver
@@ -276,16 +301,16 @@ class G:
             return call(N("len"), [v]), ("p", "int")
         nv = r.choice(["a", "b", "e", "len", "abs"])
         if k == "Select":
-            b, bt = self.value(N(nv), el, d + 1)
+            b, bt = self.inner(nv, el, d)
             b, bt = self.scalarise(b, bt)
             return tc.op_call(r, v, "Select", lam(nv, b)), ("it", bt)
         if k == "Where":
-            b, bt = self.value(N(nv), el, d + 1)
+            b, bt = self.inner(nv, el, d)
             return tc.op_call(r, v, "Where", lam(nv, self.boolean(b, bt)), 0.5), ("it", el)
         # SelectMany: the body must be iterable
         if self.s.elem(el) is not None and r.random() < 0.5:
             return tc.op_call(r, v, "SelectMany", lam(nv, N(nv))), ("it", self.s.elem(el))       # flatten one level
-        b, bt = self.value(N(nv), el, d + 1)
+        b, bt = self.inner(nv, el, d)
         be = self.s.elem(bt) if bt[0] in ("c", "it") else None
         if be is None:
             return tc.op_call(r, v, "Select", lam(nv, b)), ("it", bt)
